@@ -50,6 +50,9 @@ func genConCfg(r *rng, workload string, tier string) ConCfg {
 	c.Background = r.Chance(0.5)
 	c.MapPermute = r.Chance(0.5)
 	c.MaxSteps = 3_000_000
+	if raceEnabled {
+		c.MaxSteps = 400_000
+	}
 	return c
 }
 
@@ -496,6 +499,21 @@ func runConSim(run int, seed uint64) RunReport {
 	defer os.RemoveAll(cr.Dir)
 	liveCfg = &cr.Cfg
 	cr.run()
+	if raceEnabled {
+		if cr.Stats == nil {
+			cr.Stats = map[string]int{}
+		}
+		rv := raceViolations(newRaceReports(), cr.Stats)
+		if flProp == "C19" {
+			// C19 reports races only; functional outcomes of the run are counted as observations
+			for _, v := range cr.Viol {
+				cr.Stats["other:"+v.Property+":"+v.Class]++
+			}
+			cr.Viol = rv
+		} else {
+			cr.Viol = append(cr.Viol, rv...)
+		}
+	}
 	rep.Stats = cr.Stats
 	rep.VirtualNs = cr.Res.VirtualNs
 	// signature: outcome + schedule hash
@@ -524,7 +542,7 @@ func runConSim(run int, seed uint64) RunReport {
 		}
 		seen[v.Key()] = true
 		rf := ReplayFile{Property: v.Property, Driver: "consim", Seed: seed, Tier: flTier, Cfg: mustJSON(cr.Cfg), Schedule: cr.Res.Trace, Violation: v, OpsCount: len(cr.Res.Trace)}
-		if flMinimise {
+		if flMinimise && v.Property != "C19" {
 			if m := minimiseCon(cr, v); m != nil {
 				rf = *m
 			}
@@ -602,6 +620,10 @@ func replayConSim(rf *ReplayFile) (bool, string) {
 	}
 	if cr.Res.Outcome == "divergence" {
 		return false, "replay divergence: the recorded schedule is not runnable on this tree"
+	}
+	if raceEnabled {
+		st := map[string]int{}
+		cr.Viol = append(cr.Viol, raceViolations(newRaceReports(), st)...)
 	}
 	for _, x := range cr.Viol {
 		if x.Key() == rf.Violation.Key() {
